@@ -260,8 +260,11 @@ func (rn *runner) do(line string) {
 	if len(links) > rn.res.maxLink {
 		rn.res.maxLink = len(links)
 	}
+	// contents and wiring are checked after every operation, also one that returned an error
+	// (C06 quantifies over histories whatever the operations returned); "active = closure" only
+	// on error-free histories
+	rn.oracleC06(line, links)
 	if !rn.res.hadErr {
-		rn.oracleC06(line, links)
 		rn.oracleC07(line, strings.HasPrefix(line, "close"))
 	}
 	rn.oracleC08(line, ret, evs, before, after, balBefore)
@@ -571,7 +574,7 @@ func runLines(c *lib.Ctx, which string, lines []string) *caseResult {
 func genCase(c *lib.Ctx, r *lib.RNG, which string) []string {
 	var u *universe
 	flavour := map[string]int{"C06": 0, "C07": 1, "C08": 2}[which]
-	chainP := map[string]int{"C06": 1, "C07": 1, "C08": 5}[which]
+	chainP := map[string]int{"C06": 3, "C07": 1, "C08": 5}[which]
 	if r.Chance(chainP, 10) {
 		u = genChain(r, c)
 		c.Hit("universe-chain")
